@@ -7,13 +7,14 @@ EXPLANATION = ("Real Process.ceaseFlowMonitor (with its closure and wait gorouti
 ASSUMPTIONS = ["tracers replaced by the synchronous stub whose Subscribe is a scheduling point (contract established by C09)",
                "start events' own goroutines (Trigger/run) are replaced by the harness; the order Trigger -> monitor registration inside StartWith is therefore not explored",
                "tokens: real flows positioned at the end event (the behaviour of other nodes is the other properties' subject)",
-               "bounds: 1..2 tokens, 1..2 waiters, one expired waiter followed by one live waiter, 1..2 start events"]
+               "bounds: 1..2 tokens, 1..2 waiters, one expired waiter followed by one live waiter, 1..2 start events",
+               "no native cross-run of the witnesses: natively the harness observes traces through an asynchronous subscriber goroutine, so its count of consumed tokens can lag behind WaitUntilComplete (an artefact of the observer, seen once; the symbolic run observes synchronously)"]
 EO = ["WaitUntilComplete returns true only when every token has been consumed",
       "the cease-flow trace is emitted exactly once after the last token is gone"]
 
 
 def sc(entry, name, bounds, eo=EO, tiers=("quick", "thorough"), K=90):
-    return dict(name=name, entry=entry, K=K, reach=["quiescent"], overrides=STD, tiers=tiers, expect_obligations=eo, bounds=bounds)
+    return dict(name=name, entry=entry, K=K, reach=["quiescent"], overrides=STD, tiers=tiers, expect_obligations=eo, bounds=bounds, native=False)
 
 
 SCENARIOS = [
